@@ -319,6 +319,7 @@ def run_live_exec(case):
     from flumine.utils import create_cheap_hash, STRATEGY_NAME_HASH_LENGTH
     import flumine.order.orderpackage as opmod
     MID = "1.101"
+    HC = lambda sel: 1.5 if sel == 303 else 0      # selection 303 is a handicap line
     Clock.now = real_datetime.datetime(2024, 1, 1, 12, 0, 0)
     resets = {}
     orig_reset = RunnerContext.reset
@@ -405,7 +406,7 @@ def run_live_exec(case):
                 if tpick is not None and cands:
                     tr = cands[tpick % len(cands)]
                 else:
-                    tr = Trade(MID, sel, 0, sts[si % len(sts)], place_reset_seconds=lim.get("place_reset", 0.0), reset_seconds=lim.get("reset", 0.0))
+                    tr = Trade(MID, sel, HC(sel), sts[si % len(sts)], place_reset_seconds=lim.get("place_reset", 0.0), reset_seconds=lim.get("reset", 0.0))
                 o = tr.create_order(side, LimitOrder(price / 100, size / 100, persistence_type="LAPSE"))
                 nm = "o%d" % counters["o"]; counters["o"] += 1
                 ids[o.id] = nm
@@ -596,7 +597,7 @@ def run_live_exec(case):
             h = W["strategies"][b["strategy"]].name_hash if isinstance(b["strategy"], int) else create_cheap_hash(b["strategy"], STRATEGY_NAME_HASH_LENGTH)
             f = lambda v: v / 100
             return types.SimpleNamespace(
-                customer_order_ref="%s-%s" % (h, b["ref_id"]), customer_strategy_ref="x", market_id=MID, bet_id=b["id"], selection_id=b["sel"], handicap=0,
+                customer_order_ref="%s-%s" % (h, b["ref_id"]), customer_strategy_ref="x", market_id=MID, bet_id=b["id"], selection_id=b["sel"], handicap=HC(b["sel"]),
                 order_type="LIMIT", side=b["side"], status="EXECUTION_COMPLETE" if b["complete"] else "EXECUTABLE", persistence_type="LAPSE",
                 price_size=types.SimpleNamespace(price=b["price"] / 100, size=b["size"] / 100),
                 size_matched=f(b["matched"]), size_remaining=f(remaining(b)), size_cancelled=f(b["cancelled"]), size_lapsed=0.0, size_voided=0.0,
